@@ -1149,6 +1149,9 @@ func (self *LockManager) ProcessLockData(command *protocol.LockCommand, lock *Lo
 					i += 4
 					continue
 				}
+				if i+4+valueLen > len(self.currentData.data) {
+					break
+				}
 				values = append(values, self.currentData.data[i+4:i+4+valueLen])
 				i += valueLen + 4
 			}
@@ -1333,6 +1336,9 @@ func (self *LockManager) ProcessRecoverLockData(lock *Lock) {
 					i += 4
 					continue
 				}
+				if i+4+valueLen > len(self.currentData.data) {
+					break
+				}
 				value := self.currentData.data[i+4 : i+4+valueLen]
 				values = append(values, value)
 				i += valueLen + 4
@@ -1373,6 +1379,9 @@ func (self *LockManager) ProcessRecoverLockData(lock *Lock) {
 				if valueLen == 0 {
 					i += 4
 					continue
+				}
+				if i+4+valueLen > len(self.currentData.data) {
+					break
 				}
 				values = append(values, self.currentData.data[i+4:i+4+valueLen])
 				i += valueLen + 4
